@@ -83,8 +83,12 @@ CHECKS.update({
  "C03-old": bounded_only("all ordered pairs of ~700-3000 generated valid versions are compared with a Policy-level specification, itself validated "
         "against a transliteration of dpkg's verrevcmp and the dpkg binary; operators, symmetry, transitivity on triples and hash consistency;",
         "DESIGN.md §5 C03"),
- "C05": bounded_only("generated valid documents x histories of set/add/delete are checked byte-wise against spans from an independent scanner and "
-        "re-parsed;", "DESIGN.md §5 C05"),
+ "C05": dict(bounded_only("", "DESIGN.md §5 C05"),
+        text="The containers the edits are built on (LinkedList and OrderedSet of debian._util) are proved from the real AST against "
+             "an abstract sequence (same contracts as C09: representation invariant preserved, each operation a list insert / delete / "
+             "move). The element and token classes of _deb822_repro that use them are decided by a bounded stand-in: generated valid documents x histories of set/add/delete (also through a non-default view, and emptying a paragraph before adding to it), checked byte-wise against spans from an independent scanner and read back.",
+        technique="contract-based deductive verification of the underlying containers (heap as arrays; SMT) + bounded stand-in "
+                  "(reference-model comparison over generated documents and histories)"),
  "C09": dict(bounded_only("", "DESIGN.md §5 C09"),
         text="The ordering machinery under Deb822 mappings is proved from the real AST of debian._util: every LinkedList operation "
              "preserves a quantified doubly-linked-list invariant over an array heap and acts on the abstract node sequence as a list "
@@ -140,9 +144,12 @@ CHECKS.update({
              "pattern, a non-blank one matches _multidata and never the whitespace paragraph separator). The composition validator -> dump "
              "-> parser is decided by a bounded stand-in: every value of length <= 5/6 over {a, ':', '#', space, TAB, CR, LF}.",
         technique="regex-to-SMT language lemmas on the real patterns + bounded stand-in (exhaustive short values)"),
- "C11": bounded_only("generated whitespace- and comma-separated list fields (layouts, line breaks, comment lines, trailing separators) x "
-        "histories of append/remove/replace/value-reference edits are compared with an independent split of the field text, a list model and "
-        "byte spans of the other fields;", "DESIGN.md §5 C11"),
+ "C11": dict(bounded_only("", "DESIGN.md §5 C11"),
+        text="The containers the edits are built on (LinkedList and OrderedSet of debian._util) are proved from the real AST against "
+             "an abstract sequence (same contracts as C09: representation invariant preserved, each operation a list insert / delete / "
+             "move). The element and token classes of _deb822_repro that use them are decided by a bounded stand-in: generated whitespace- and comma-separated list fields (layouts, line breaks, comment lines, trailing separators, values starting with '#') x histories of append / remove / replace / reference edits against an independent split of the field text.",
+        technique="contract-based deductive verification of the underlying containers (heap as arrays; SMT) + bounded stand-in "
+                  "(reference-model comparison over generated documents and histories)"),
  "C12": bounded_only("for every class with structured fields x subsets of those fields x record lists, the dump must be exactly the documented "
         "text (size column aligned to 16 / longest present) and re-parse to the same records;", "DESIGN.md §5 C12"),
  "C13": dict(bounded_only("", "DESIGN.md §5 C13"),
